@@ -134,7 +134,7 @@ def co_await_wiring(ctx, db):
             sh = index_of(tr, callee_is('cocls::awaiter::set_handle'))
             st = index_of(tr, lambda ev: ev.k == 'call' and atomic.is_atomic_call(ev) and norm(ev.get('field')) == 'cocls::future_common::_awaiter' and atomic.opname(ev) in ('store', 'operator=', 'exchange'))
             wf = index_of(tr, lambda ev: ev.k == 'write' and field_of(ev) == 'cocls::async_promise::_future')
-            rt = index_of(tr, lambda ev: ev.k == 'return')
+            rt = index_of(tr, lambda ev: ev.k == 'return' and ev.get('depth', 0) == 0)
             if min(rd, sh, st, wf, rt) < 0:
                 bad = bad or ('a wiring step is missing (read callee handle / set_handle / arm slot / bind future / return)', tr); continue
             if not rd < sh:
@@ -148,7 +148,7 @@ def co_await_wiring(ctx, db):
                 bad = bad or ('the callee is not bound to the awaiter\'s own future', tr)
             r = tr[rt]
             o = value_origin(f, f.ev(r.get('ret_ev'))) if r.get('ret_ev') is not None and f.ev(r.get('ret_ev')) is not None else value_origin(f, r.get('path') or '')
-            if o is None or 'from_address' not in norm(o.get('callee') or ''):
+            if (o is None or 'from_address' not in norm(o.get('callee') or '')) and 'from_address' not in (origin_in_trace(tr, rt, r.get('path'))[0] or ''):
                 bad = bad or ('the returned handle is not the callee\'s handle', tr)
         ctx.ob(rid, f, f['key'], bad is None, 'wiring complete before transfer' + ('' if not bad else ' -- ' + bad[0]), desc=bad[0] if bad else None, trace=fmt_trace(bad[1]) if bad else None)
 
